@@ -76,7 +76,8 @@ PROPS = {
         'trusted': ['hand-written interaction-tree model of Process/redirectToIDP/retrieveTokens/refreshToken (AuthModel/Oidc/Handler.lean), tied to the code by the differential run (response + ordered action trace per request line)', 'oracles: jwt parsing and claims (jwx), JWS verification (checked against an independent stdlib RSA verification in the harness), SHA-256/base64url; url.Parse of the callback URI', 'library code (jwx, encoding/json, url.ParseQuery, go-redis) is sampled by the differential run, not proved'],
     },
     'C03': {
-        'theorems': ['no_hidden_state', 'login_completes', 'no_reauth_while_valid', 'no_expires_in_no_expiry', 'cookie_read_back'],
+        'theorems': ['no_hidden_state', 'login_completes', 'no_reauth_while_valid', 'no_expires_in_no_expiry', 'cookie_read_back', 'code_cookie_read_back'],
+        'translated': ['getSessionIDFromCookie', 'DecodeCookiesHeader', 'getCookieName'],
         'trusted': ['hand-written interaction-tree model of the handler tied to the code by the differential run', 'oracles: jwt parsing/claims (jwx), JWS verification, SHA-256; url.Parse of the callback URI', 'the three steps are composed through hypotheses that the store returns what was stored (C12) and that the browser presents the cookie it was given (cookie_read_back)'],
     },
     'C04': {
